@@ -40,7 +40,8 @@ from . import common as C
 PROP = "C20"
 MODEL = "Reject"
 SHARD = 250
-CASE_TIMEOUT = 10
+CASE_TIMEOUT = 90        # wall-clock backstop (a run that sleeps); the limit that counts is CPU_LIMIT, see run_impl
+CPU_LIMIT = 10           # seconds of CPU one document may use: the machine's load does not eat into it
 SKIPPED_FN = "case_unsupported"
 RULE = ("cases: edit = a valid seed recipe (16 built-in seeds covering every construct, 11 tiny seeds one "
         "per declaration kind, ~90 repository examples/tests that run offline) with ONE structural edit "
@@ -50,24 +51,51 @@ RULE = ("cases: edit = a valid seed recipe (16 built-in seeds covering every con
         "quick; doc = random YAML trees depth<=4 over the recipe vocabulary; text = raw texts (aliases, "
         "cycles, tags, merge keys, unloadable text); files = multi-file recipes: fixed sets plus generated include graphs (2-4 files, paths spelled with ./.. detours, cycles of length 1-3); macrograph = macro rings of length 1-3 with every combination of edge kinds (include / friend / nested object / nested below a friend) plus random graphs; the snowfakery_version option with 23 default shapes; fault = recipes with one injected run-time "
         "exception (plugin call, attribute lookup, count conversion, for_each, write_row; top level / "
-        "friend / nested).  Each document runs under a 10 s limit.  Compared with the Coq model: the "
+        "friend / nested); round 3: hostile = the fault recipes (22 sites x 5 depths x exception classes) with text from a "
+        "108-string hostile alphabet ({ } {} {0} {x} {e} %s %(x)s $x backslashes quotes newlines unicode control characters NUL, regex and SQL metacharacters, sqlite_ names, long, "
+        "empty) in every name around the fault (table, nickname, enclosing templates, field, variable, for_each variable, function "
+        "name, definition text, count text) and as the text of the raised exception - every (site, depth, class), every string "
+        "in every slot at a site whose message quotes that slot, every string as exception text; hostile-static = 26 document "
+        "patterns whose error message quotes a name (macro, plugin, option, file, function, reference, key, version) with hostile "
+        "names; files with hostile file names; fmt / fix = str.format itself and fix_exception called directly on generated "
+        "templates, arguments and exception texts (the four templates of the code among them); dag = documents with anchors: "
+        "ladders (list / dict / mixed / comb, width 2-4, depth 1-64 in quick, -96 in thorough) in 14 places where the parser "
+        "does not follow the references and (depth <= 6) in 9 places where it does, shared parts used the ordinary way, random "
+        "acyclic and cyclic graphs; big = deep nesting (10-3000), long lists / strings / formulas, many statements / fields, "
+        "counts up to 10**5000.  Each document runs under a limit of 10 s of CPU time (90 s wall clock), dag / big "
+        "documents also under a CPU budget that grows with the length of the text only (3 s + 10 us per character).  Compared with the Coq model: the "
         "static verdict Accept / Reject / Crash(type@file:function) of parse_recipe + merge_options + "
-        "the random_reference scan, and for fault cases the exception class leaving generate.  Oracle on "
+        "the random_reference scan (for documents with anchors on the graph PyYAML built: alias check, then the tree), the number "
+        "of invocations of the alias check (at most the model's count + one per mapping), for fault / hostile cases the exception "
+        "class leaving generate and - where the model promises them - message and line, for fmt the exact result of Python's "
+        "str.format, for fix the class fix_exception returns / raises.  Oracle on "
         "the implementation: never a non-DataGenError exception, never a hang, a DataGenError has a "
-        "message, zero rows when the error is raised before execution starts.  non-trivial: the document "
-        "is rejected or crashes (the rejection machinery ran), or a fault case; distinct by case hash")
+        "message, a line when what was raised at the fault was not a DataGenError, zero rows when the error is raised before "
+        "execution starts, the CPU budget.  non-trivial: the document "
+        "is rejected or crashes (the rejection machinery ran), or a fault / hostile / dag / big case, or a format template with a brace; distinct by case hash")
 TRUSTED = ["harness/c20.py: tree <-> YAML text (yaml.safe_dump / yaml.safe_load); the model receives the tree "
            "PyYAML loads from the text the implementation receives (`__line__` keys dropped: the loader "
            "overwrites them); include_file targets and plugin names are resolved by the harness (pathlib, "
            "importlib under the implementation's plugin search path) and given to the model as an environment",
            "harness/c20.py: Interpreter.execute wrapped to learn whether the error came before execution "
            "started; a capturing OutputStream counts rows and aborts runs after 2000 rows",
-           "harness/c20_plugin.py: the fault-injection plugin (raises the exception named in its argument)"]
+           "harness/c20_plugin.py: the fault-injection plugin (raises the exception named in its argument, with the text "
+           "chosen from the hostile alphabet; any attribute starting with `boom` is such a function)",
+           "harness/c20.py graph_of: the object graph yaml.safe_load builds from the text (containers by identity) is the "
+           "heap given to the model; the implementation's own loader adds a `__line__` entry per mapping (slack of the "
+           "invocation count); check_no_recursive_aliases is counted through a wrapper installed under its module-level "
+           "name (absent name: not counted)",
+           "harness/c20.py run_impl: CPU-time limit by signal.ITIMER_PROF, reported like the driver's wall-clock alarm"]
 ASSUMPTIONS = ["PyYAML maps text to trees; what it raises for unloadable text is an input of the model "
                "(marked YAMLError / unmarked YAMLError / other exception)",
                "importlib / the file system answer as observed by the harness in the same process",
                "Jinja, Faker and plugin code raise only Python exceptions (the theorems quantify over all of them)",
-               "Python's recursion limit is the implementation's fuel: the model's OutOfFuel corresponds to RecursionError"]
+               "Python's recursion limit is the implementation's fuel: the model's OutOfFuel corresponds to RecursionError "
+               "(documents nested beyond it: open finding C20-D1)",
+               "str.format behaves as modelled (py_format) on the fragment without conversions, format specs, attribute / "
+               "index access and non-ASCII field names: compared with Python's own str.format on every run (fmt cases)",
+               "get_evaluator raises only for a definition that contains one of Jinja's opening delimiters "
+               "(compiler_for_string), hence never for the empty definition"]
 EXHAUSTIVE = {"quick": False, "thorough": False}
 
 REPO = C.REPO
@@ -771,46 +799,82 @@ FAULT_EXCS = ["KeyError", "ValueError", "TypeError", "AttributeError", "Assertio
               "ZeroDivisionError", "RuntimeError", "StopIteration", "DGE", "RecursionError", "OSError"]
 
 
-def _fault_recipe(site, dep, exc):
-    """Python recipe object with the fault placed at `site` inside a template at nesting `dep`."""
-    boom = {"Boom.boom": exc}
-    t = {"object": "T", "fields": {"a": 1}}
+DEFAULT_NAMES = {"T": "T", "Tn": None, "P": "P", "Pn": None, "Q": "Q", "Qn": None, "field": "f", "pfield": "c",
+                 "var": "v", "vt": "vt", "fe": "r", "fn": "", "defn": "", "cdef": ""}
+FAULT_SITES_V = FAULT_SITES + ["ctx_locale", "ctx_locale_var", "field_compile", "count_compile", "var_compile"]
+
+
+def _tmpl(names, which, **rest):
+    t = {"object": names[which]}
+    if names.get(which + "n"):
+        t["nickname"] = names[which + "n"]
+    t.update(rest)
+    return t
+
+
+def _fault_recipe(site, dep, exc, names=None, msg=None):
+    """Python recipe object with the fault placed at `site` inside a template at nesting `dep`.
+    names: the text of every name around the fault (DEFAULT_NAMES); msg: index of the exception's text in
+    c20_plugin.HOSTILE (None = the plugin's default text)."""
+    nm = dict(DEFAULT_NAMES)
+    nm.update(names or {})
+    fname = "Boom.boom" + nm["fn"]
+    boom = {fname: exc} if msg is None else {fname: {"name": exc, "msg": msg}}
+    formula = ("${{ Boom.boom('%s') }}" % exc) if msg is None else ("${{ Boom.boom('%s', %d) }}" % (exc, msg))
+    broken = nm["defn"] + "${{ 1 + }}"
+    t = _tmpl(nm, "T", fields={"a": 1})
+    f = nm["field"]
     stmts = [{"plugin": "harness.c20_plugin.Boom"}]
     extra_top = []
     if site == "field_call":
-        t["fields"]["f"] = boom
+        t["fields"][f] = boom
     elif site == "field_attr":
-        t["fields"]["f"] = {"Boom.nosuch": 1}
+        t["fields"][f] = {"Boom.nosuch": 1}
     elif site == "field_arg":
-        t["fields"]["f"] = {"random_number": {"min": boom, "max": 3}}
+        t["fields"][f] = {"random_number": {"min": boom, "max": 3}}
     elif site == "field_simple":
-        t["fields"]["f"] = "${{ Boom.boom('%s') }}" % exc
+        t["fields"][f] = formula
+    elif site == "field_compile":
+        t["fields"][f] = broken
     elif site == "var_call":
-        extra_top = [{"var": "v", "value": boom}]
+        extra_top = [{"var": nm["var"], "value": boom}]
     elif site == "var_attr":
-        extra_top = [{"var": "v", "value": {"Boom.nosuch": 1}}]
+        extra_top = [{"var": nm["var"], "value": {"Boom.nosuch": 1}}]
     elif site == "var_simple":
-        extra_top = [{"var": "v", "value": "${{ Boom.boom('%s') }}" % exc}]
+        extra_top = [{"var": nm["var"], "value": formula}]
+    elif site == "var_compile":
+        extra_top = [{"var": nm["var"], "value": broken}]
     elif site == "count_call":
         t["count"] = boom
     elif site == "count_attr":
         t["count"] = {"Boom.nosuch": 1}
     elif site == "count_simple":
-        t["count"] = "${{ Boom.boom('%s') }}" % exc
+        t["count"] = formula
+    elif site == "count_compile":
+        t["count"] = broken
     elif site == "count_conv_simple":
-        t["count"] = "abc"
+        t["count"] = "abc" + nm["cdef"]
     elif site == "count_conv_struct":
-        t["count"] = {"Boom.text": "abc"}
+        t["count"] = {"Boom.text": "abc" + nm["cdef"]}
     elif site == "count_conv_inf":
         t["count"] = "inf"
     elif site == "foreach_call":
-        t["for_each"] = {"var": "r", "value": boom}
+        t["for_each"] = {"var": nm["fe"], "value": boom}
     elif site == "foreach_noniter":
-        t["for_each"] = {"var": "r", "value": {"Boom.text": "abc"}}
+        t["for_each"] = {"var": nm["fe"], "value": {"Boom.text": "abc"}}
     elif site == "foreach_attr":
-        t["for_each"] = {"var": "r", "value": {"Boom.nosuch": 1}}
+        t["for_each"] = {"var": nm["fe"], "value": {"Boom.nosuch": 1}}
     elif site == "write_row":
         t["count"] = 2
+    elif site == "ctx_locale":
+        # an unknown Faker locale: creating the template's context fails
+        if dep != "top":
+            return None
+        return stmts + [{"var": "snowfakery_locale", "value": "xx_QQ"}, t]
+    elif site == "ctx_locale_var":
+        if dep != "top":
+            return None
+        return stmts + [{"var": "snowfakery_locale", "value": "xx_QQ"}, {"var": nm["var"], "value": 1}, t]
     else:
         raise ValueError(site)
     if site.startswith("var_"):
@@ -819,23 +883,469 @@ def _fault_recipe(site, dep, exc):
         if dep == "top":
             stmts += [v, t]
         elif dep == "friend":
-            stmts += [{"object": "P", "friends": [v, t]}]
+            stmts += [_tmpl(nm, "P", friends=[v, t])]
         elif dep == "friend_of_friend":
-            stmts += [{"object": "P", "friends": [{"object": "Q", "friends": [v, t]}]}]
+            stmts += [_tmpl(nm, "P", friends=[_tmpl(nm, "Q", friends=[v, t])])]
         else:
             return None
         return stmts
     if dep == "top":
         stmts += [t]
     elif dep == "friend":
-        stmts += [{"object": "P", "friends": [t]}]
+        stmts += [_tmpl(nm, "P", friends=[t])]
     elif dep == "nested":
-        stmts += [{"object": "P", "fields": {"c": t}}]
+        stmts += [_tmpl(nm, "P", fields={nm["pfield"]: t})]
     elif dep == "var_template":
-        stmts += [{"var": "vt", "value": [t]}]
+        stmts += [{"var": nm["vt"], "value": [t]}]
     elif dep == "friend_of_friend":
-        stmts += [{"object": "P", "friends": [{"object": "Q", "friends": [t]}]}]
+        stmts += [_tmpl(nm, "P", friends=[_tmpl(nm, "Q", friends=[t])])]
     return stmts
+
+
+# ----------------------------------------------------------------- hostile text around an injected fault
+from .c20_plugin import HOSTILE                                   # noqa: E402
+
+_NAME_SLOTS = ["T", "Tn", "P", "Pn", "Q", "Qn", "field", "pfield", "var", "vt", "fe", "fn", "defn", "cdef"]
+
+
+def _slot_ok(slot, text, site):
+    """may `text` stand in this slot without changing which fault the recipe runs into?"""
+    if slot == "defn":
+        return True
+    if slot == "cdef":
+        # the count stays text that is neither a formula nor a number
+        return not any(d in text for d in ("${{", "${%", "<<", "<%")) and "\x00" not in text
+    if text == "":
+        return False                                   # names must not be empty (a different, static, error)
+    if slot in ("T", "P", "Q") and text.startswith("__"):
+        return False                                   # hidden tables are not written
+    if slot == "fn":
+        # the function name is resolved with str.split('.') and, in formulas, by Jinja
+        return "." not in text and not site.endswith("_simple")
+    if slot in ("var", "vt", "fe") and text in ("snowfakery_locale", "id"):
+        return False
+    if slot in ("field", "pfield") and text in ("a", "id"):
+        return False
+    return True
+
+
+def hostile_case(rng, site, dep, exc, slots=None, text=None, msg=None):
+    """a fault case with hostile text in some of the names around it (and as the exception's own text)"""
+    names = {}
+    if slots is None:
+        k = rng.choice([1, 1, 2, 3, len(_NAME_SLOTS)])
+        slots = rng.sample(_NAME_SLOTS, k)
+    for sl in slots:
+        for _ in range(6):
+            tx = text if (text is not None and sl == slots[0]) else rng.choice(HOSTILE)
+            if _slot_ok(sl, tx, site):
+                names[sl] = tx
+                break
+            text = None
+    # the templates on the way must stay distinguishable (the fault is keyed on T's table name)
+    tabs = [names.get(k, DEFAULT_NAMES[k]) for k in ("T", "P", "Q")]
+    if len(set(tabs)) < 3:
+        for i, k in enumerate(("T", "P", "Q")):
+            if k in names:
+                names[k] = names[k] + "#%d" % i
+    nicks = [names.get(k) for k in ("Tn", "Pn", "Qn") if names.get(k)]
+    if len(set(nicks)) < len(nicks):
+        for i, k in enumerate(("Tn", "Pn", "Qn")):
+            if names.get(k):
+                names[k] = names[k] + "#%d" % i
+    if names.get("field") and names.get("field") == names.get("pfield"):
+        names["pfield"] += "#"
+    if msg is None and not site.endswith("_compile") and rng.random() < 0.7:
+        msg = rng.randrange(len(HOSTILE))
+    return {"kind": "hostile", "site": site, "depth": dep, "exc": exc, "names": names, "msg": msg,
+            "nth": rng.choice([1, 1, 2]) if site == "write_row" else 0}
+
+
+def _valid_fault(site, dep, exc):
+    if _fault_recipe(site, dep, "KeyError") is None:
+        return False
+    if exc == "StopIteration" and site.endswith("_simple"):
+        return False                                   # Jinja's generator-based rendering absorbs StopIteration
+    fixed = ("count_conv_simple", "count_conv_struct", "count_conv_inf", "foreach_noniter", "field_attr", "var_attr",
+             "count_attr", "foreach_attr", "ctx_locale", "ctx_locale_var", "field_compile", "count_compile", "var_compile")
+    return not (site in fixed and exc != "KeyError")
+
+
+def hostile_cases(rng, tier):
+    cases = []
+    excs = FAULT_EXCS if tier == "thorough" else ["KeyError", "DGE", "AssertionError"]
+    combos = [(s, d, e) for s in FAULT_SITES_V for d in FAULT_DEPTHS for e in excs if _valid_fault(s, d, e)]
+    # every (site, depth, exception) with random hostile text ...
+    for s, d, e in combos:
+        for _ in range((2 if e == "KeyError" else 1) if tier == "quick" else 6):
+            cases.append(hostile_case(rng, s, d, e))
+    # ... every hostile text in every slot, at a site whose message is built from that slot ...
+    on_path = {"T": ["count_attr", "count_call", "ctx_locale", "write_row", "foreach_attr", "count_conv_struct"],
+               "Tn": ["count_attr", "count_call", "ctx_locale", "write_row", "foreach_attr"],
+               "P": ["count_attr", "field_call"], "Pn": ["count_attr"], "Q": ["count_attr"], "Qn": ["count_attr"],
+               "field": ["field_call", "field_attr", "field_simple", "field_compile", "field_arg"],
+               "pfield": ["field_call", "count_attr"],
+               "var": ["var_call", "var_attr", "var_simple", "var_compile", "ctx_locale_var"],
+               "vt": ["count_attr", "field_call"], "fe": ["foreach_call", "foreach_noniter", "foreach_attr"],
+               "fn": ["field_call", "count_call", "var_call", "foreach_call", "field_arg"],
+               "defn": ["field_compile", "count_compile", "var_compile"],
+               "cdef": ["count_conv_simple", "count_conv_struct"]}
+    deps_for = {"P": ["friend", "nested", "friend_of_friend"], "Pn": ["friend", "nested", "friend_of_friend"],
+                "Q": ["friend_of_friend"], "Qn": ["friend_of_friend"], "pfield": ["nested"], "vt": ["var_template"]}
+    for sl in _NAME_SLOTS:
+        for h in HOSTILE:
+            if tier == "quick" and rng.random() < 0.5 and sl not in ("T", "Tn", "field", "var", "fn"):
+                continue
+            sites = [x for x in on_path[sl] if _slot_ok(sl, h, x)]
+            if not sites:
+                continue
+            s = rng.choice(sites)
+            deps = [d for d in deps_for.get(sl, FAULT_DEPTHS) if _valid_fault(s, d, "KeyError")]
+            if not deps:
+                continue
+            d = rng.choice(deps)
+            e = "KeyError" if not _valid_fault(s, d, "AttributeError") else rng.choice(["KeyError", "AttributeError", "ValueError"])
+            cases.append(hostile_case(rng, s, d, e, slots=[sl], text=h))
+    # ... and every hostile text as the text of the exception itself
+    for i, h in enumerate(HOSTILE):
+        for s in ("field_call", "field_simple", "var_call", "var_simple", "count_call", "count_simple", "foreach_call",
+                  "write_row"):
+            if tier == "quick" and rng.random() < 0.6:
+                continue
+            d = rng.choice([d for d in FAULT_DEPTHS if _valid_fault(s, d, "KeyError")])
+            cases.append(hostile_case(rng, s, d, rng.choice(["ValueError", "DGE", "AssertionError", "KeyError"]),
+                                      slots=[], msg=i))
+    return cases
+
+
+# ----------------------------------------------------------------- hostile text in static positions
+def hostile_static_docs(rng, tier):
+    """documents whose names (option, macro, plugin, file, function, reference target, keys) are hostile text and
+    that are wrong (or right) in a way whose message quotes the name; compared with the model as documents"""
+    out = []
+
+    def add(label, doc):
+        out.append({"kind": "doc", "tree": from_py(doc), "base": None, "label": "hostile-static:" + label})
+    hs = [h for h in HOSTILE if h]
+    pick = hs if tier == "thorough" else rng.sample(hs, 14) + ["{", "}", "{}", "{0}", "{x}", "%s", "%"]
+    for h in pick:
+        add("unknown-macro", [{"object": "A", "include": h}])
+        add("macro-cycle", [{"macro": h, "include": h}, {"object": "A", "include": h}])
+        add("macro-ok", [{"macro": h, "fields": {h: 1}}, {"object": "A", "include": h}])
+        add("plugin-name", [{"plugin": h}, {"object": "A"}])
+        add("plugin-dotted", [{"plugin": "harness." + h}, {"object": "A"}])
+        add("option-no-default", [{"option": h}, {"object": "A"}])
+        add("option-ok", [{"option": h, "default": h}, {"object": h, "fields": {h: "${{ 1 }}"}}])
+        add("include-file-missing", [{"include_file": h}, {"object": "A"}])
+        add("unknown-function", [{"object": "A", "fields": {"x": {h: 1}}}])
+        add("unknown-function-kw", [{"object": "A", "fields": {"x": {h: {h: h}}}}])
+        add("unknown-reference", [{"object": "A", "fields": {"x": {"reference": h}}}])
+        add("unknown-random-reference", [{"object": "A", "fields": {"x": {"random_reference": h}}}])
+        add("random-reference-ok", [{"object": h, "count": 2}, {"object": "B", "fields": {"x": {"random_reference": h}}}])
+        add("random-reference-nickname", [{"object": "T", "nickname": h, "count": 2},
+                                          {"object": "B", "fields": {"x": {"random_reference": {"to": h, "unique": True}}}}])
+        add("unknown-top-key", [{h: 1}])
+        add("unknown-template-key", [{"object": "A", h: 1}])
+        add("bad-field-value", [{"object": h, "fields": {h: [1, 2]}}])
+        add("bad-count", [{"object": h, "nickname": h, "count": "abc" + h}])
+        add("count-and-for-each", [{"object": h, "count": 1, "for_each": {"var": h, "value": {"x": 1}}}])
+        add("nested-just-once", [{"object": "A", "friends": [{"object": h, "just_once": True}]}])
+        add("var-bad-value", [{"var": h, "value": 1.5}, {"var": h, "value": {h: []}}])
+        add("names-ok", [{"var": h, "value": h}, {"object": h, "nickname": h + "n", "fields": {h: h, "r": {"reference": h + "n"}}}])
+        add("two-categories", [{"object": h, "macro": h}])
+        add("version", [{"snowfakery_version": h}, {"object": "A"}])
+        add("friend-not-a-statement", [{"object": "A", "friends": [{h: h}]}])
+        add("jinja-undefined", [{"object": "A", "fields": {h: "${{ nosuch_" + "".join(c for c in h if c.isalnum()) + " }}"}}])
+    return out
+
+
+HOSTILE_FILESETS = {
+ "hostile_included_name_braces": {"main.yml": "- include_file: 'inc{x}.yml'\n- object: A\n", "inc{x}.yml": "- object: B\n"},
+ "hostile_included_name_percent": {"main.yml": "- include_file: 'a%sb.yml'\n- object: A\n",
+                                   "a%sb.yml": "- object: B\n  fields:\n    '': x\n"},
+ "hostile_included_bad_yaml": {"main.yml": "- include_file: '{0}.yml'\n- object: A\n", "{0}.yml": "- object: 'B\n"},
+ "hostile_included_unicode": {"main.yml": "- include_file: '名 前.yml'\n- object: A\n", "名 前.yml": "- object: B\n  bogus: 1\n"},
+ "hostile_included_missing": {"main.yml": "- include_file: '{e}/{}.yml'\n- object: A\n"},
+ "hostile_main_name_runtime": {"ma{in}.yml": "- object: A\n  count: abc\n", "_main": "ma{in}.yml"},
+ "hostile_main_name_static": {"ma%(x)sin {0}.yml": "- object: A\n  bogus: 1\n", "_main": "ma%(x)sin {0}.yml"},
+ "hostile_main_name_self_include": {"{}.yml": "- include_file: '{}.yml'\n- object: A\n", "_main": "{}.yml"},
+ "hostile_include_cycle": {"main.yml": "- include_file: '{a}.yml'\n", "{a}.yml": "- include_file: '%s.yml'\n",
+                           "%s.yml": "- include_file: '{a}.yml'\n"},
+}
+
+
+# ----------------------------------------------------------------- str.format and fix_exception, directly
+_FMT_PIECES = ["{}", "{}", "{0}", "{1}", "{2}", "{e}", "{e}", "{x}", "{y}", "{{", "}}", "{", "}", "{e!r}", "{:>3}", "{0.real}",
+               "{ }", "{e }", "{00}", "{-1}", "{1_0}", "{+1}", "{0}{}", "{}{0}", "{e[0]}", "{٣}", "{0000001}", "{12345678}",
+               "{é}", "{{}}", "{{{}}}", "{{{e}}}", "}{", "{}}", "{{}", "{a b}", "{%}", "{\\}", "{'}"]
+REAL_TEMPLATES = ["Cannot evaluate function `{}`:\n {e}", "Problem rendering field {}:\n {e}",
+                  "Cannot evaluate variable `{}`:\n {e}", "Cannot parse value {}"]
+
+
+def _arb_template(rng):
+    n = rng.choice([0, 1, 1, 2, 2, 3, 4, 6])
+    parts = []
+    for _ in range(n):
+        r = rng.random()
+        if r < 0.55:
+            parts.append(rng.choice(_FMT_PIECES))
+        elif r < 0.8:
+            parts.append(rng.choice(["a", " ", "Cannot generate ", " : ", "\n", "é", "%s", "x" * 20]))
+        else:
+            parts.append(rng.choice(HOSTILE))
+    return "".join(parts)
+
+
+def fmt_cases(rng, tier):
+    out = []
+    n = 350 if tier == "quick" else 4000
+    for i in range(n):
+        real = i % 5 == 0
+        t = rng.choice(REAL_TEMPLATES) if real else _arb_template(rng)
+        args = [rng.choice(HOSTILE) for _ in range(rng.choice([0, 1, 1, 1, 2, 3]) if not real else rng.choice([1, 1, 2]))]
+        kw = {}
+        if rng.random() < 0.3:
+            kw[rng.choice(["x", "y", "a b", " ", "-1", "1_0"])] = rng.choice(HOSTILE)
+        emsg = rng.choice(HOSTILE)
+        if i % 2 == 0:
+            out.append({"kind": "fmt", "template": t, "args": args, "kw": dict(kw, e=emsg)})
+        else:
+            if real and t == REAL_TEMPLATES[3]:
+                d = rng.choice([h for h in HOSTILE if h]) + "${{"
+                args = list(d)                       # *definition
+            out.append({"kind": "fix", "template": t, "args": args, "emsg": emsg, "edge": rng.random() < 0.4})
+    return out
+
+
+# ----------------------------------------------------------------- documents with anchors (graphs), big documents
+# place -> does the unchanged parser follow the references below it (parse, or print in a message)?
+DAG_PLACES = {
+    "option_default": False, "unused_macro_fields": False, "unused_macro_friends": False, "unknown_template_key": False,
+    "object_name": False, "nickname": False, "fields_wrong_type": False, "friends_wrong_type": False,
+    "count_wrong_type": False, "include_value": False, "just_once_value": False, "macro_unused_body_key": False,
+    "second_option_default": False,
+    "version_option_default": True,        # "snowfakery_version should be 2 or 3, not `{snowfakery_version}`"
+    "field_value": True, "var_value": True, "friends": True, "count": True, "used_macro_fields": True,
+    "top_element": True, "for_each_value": True, "function_args": True,
+}
+
+
+def _ladder(depth, width, kind):
+    """level 0 = a small container, level i refers `width` times to level i-1 (kind list / dict / mixed), or to
+    every earlier level (comb)"""
+    cur = ["a", "b"] if kind != "dict" else {"p": 1, "q": 2}
+    levels = [cur]
+    for i in range(depth):
+        if kind == "list":
+            cur = [cur] * width
+        elif kind == "dict":
+            cur = {"k%d" % j: cur for j in range(width)}
+        elif kind == "mixed":
+            cur = [cur, {"x": cur, "y": levels[max(0, i - 1)]}] if i % 2 else {"x": cur, "y": [cur] * (width - 1)}
+        else:
+            cur = list(levels)
+        levels.append(cur)
+    return cur
+
+
+def _random_graph(rng, n, cyclic):
+    nodes = []
+    scal = ["a", 1, None, True, 1.5, "x y", "${{ 1 }}", _dt.date(2020, 1, 1)]
+    for i in range(n):
+        k = rng.choice([0, 1, 2, 2, 3])
+        kids = [rng.choice(nodes) if nodes and rng.random() < 0.7 else rng.choice(scal) for _ in range(k)]
+        if rng.random() < 0.5:
+            nodes.append(list(kids))
+        else:
+            keys = rng.sample(["object", "fields", "x", "y", "count", "to", "random_reference", "k1", "k2", 5], len(kids))
+            nodes.append(dict(zip(keys, kids)))
+    top = nodes[-1]
+    if cyclic:
+        # close a cycle: something the top reaches gets the top (or itself) as a member
+        lists = [x for x in nodes if isinstance(x, list)]
+        tgt = rng.choice(lists) if lists else None
+        if tgt is None:
+            top = [top]
+            tgt = top
+        tgt.append(rng.choice([top, tgt]))
+        if tgt is not top:
+            top = [top, tgt]
+    return top
+
+
+def _place(g, place, rng=None):
+    as_list = g if isinstance(g, list) else [g]
+    as_dict = g if isinstance(g, dict) else {"x": g}
+    A = {"object": "A", "fields": {"name": "Acme"}}
+    if place == "option_default":
+        return [{"option": "o", "default": g}, A]
+    if place == "second_option_default":
+        return [{"option": "o", "default": 1}, {"option": "p", "default": {"deep": [g, g]}}, A]
+    if place == "version_option_default":
+        return [{"option": "snowfakery.standard_plugins.SnowfakeryVersion.snowfakery_version", "default": g}, A]
+    if place == "unused_macro_fields":
+        return [{"macro": "unused", "fields": as_dict}, A]
+    if place == "unused_macro_friends":
+        return [{"macro": "unused", "friends": as_list}, A]
+    if place == "macro_unused_body_key":
+        return [{"macro": "unused", "bogus": g}, A]
+    if place == "unknown_template_key":
+        return [dict(A, bogus=g)]
+    if place == "object_name":
+        return [{"object": g}]
+    if place == "nickname":
+        return [dict(A, nickname=g)]
+    if place == "fields_wrong_type":
+        return [{"object": "A", "fields": as_list}]
+    if place == "friends_wrong_type":
+        return [dict(A, friends=as_dict)]
+    if place == "count_wrong_type":
+        return [dict(A, count=as_list)]
+    if place == "include_value":
+        return [dict(A, include=g)]
+    if place == "just_once_value":
+        return [dict(A, just_once=g)]
+    if place == "field_value":
+        return [{"object": "A", "fields": {"x": g}}]
+    if place == "function_args":
+        return [{"object": "A", "fields": {"x": {"random_choice": g}}}]
+    if place == "var_value":
+        return [{"var": "v", "value": g}, A]
+    if place == "friends":
+        return [dict(A, friends=as_list)]
+    if place == "count":
+        return [dict(A, count=as_dict)]
+    if place == "for_each_value":
+        return [dict(A, for_each={"var": "r", "value": as_dict})]
+    if place == "used_macro_fields":
+        return [{"macro": "m", "fields": as_dict}, dict(A, include="m")]
+    if place == "top_element":
+        return [A, g]
+    raise ValueError(place)
+
+
+def _dump_graph(py):
+    return yaml.safe_dump(py, sort_keys=False, allow_unicode=True, default_flow_style=False, width=1000)
+
+
+def dag_cases(rng, tier):
+    out = []
+
+    def add(py, label, **kw):
+        out.append(dict({"kind": "dag", "text": _dump_graph(py), "label": "dag:" + label}, **kw))
+    safe = [p for p, unfolds in DAG_PLACES.items() if not unfolds]
+    unf = [p for p, unfolds in DAG_PLACES.items() if unfolds]
+    # ladders of growing depth and width where the unchanged parser does not follow the references:
+    # a valid (or at once rejected) recipe however deep the sharing
+    depths = [1, 2, 3, 5, 8, 12, 16, 20, 24, 32, 40, 64] if tier == "quick" else [1, 2, 3, 4, 5, 6, 8, 10, 12, 14, 16, 18, 20, 24, 28, 32, 40, 48, 64, 96]
+    for d in depths:
+        for kind in ("list", "dict", "mixed", "comb"):
+            if kind == "comb" and d > 40:
+                continue                              # (its text grows with the square of the depth)
+            w = rng.choice([2, 2, 3, 4])
+            places = safe if tier == "thorough" else rng.sample(safe, 3)
+            for pl in places:
+                add(_place(_ladder(d, w, kind), pl), f"ladder:{kind}:{pl}", place=pl, depth=d, width=w)
+    # small ladders where the parser does follow them (the tree is small: the model builds it)
+    for d in (1, 2, 3, 4, 5, 6):
+        for kind in ("list", "dict", "mixed", "comb"):
+            for pl in (unf if tier == "thorough" else rng.sample(unf, 3)):
+                add(_place(_ladder(d, 2, kind), pl), f"ladder-followed:{kind}:{pl}", place=pl, depth=d, width=2)
+    # shared parts used the ordinary way (valid recipes)
+    shared_fields = {"name": "x", "n": 1}
+    add([{"object": "A", "fields": shared_fields}, {"object": "B", "fields": shared_fields}], "shared-fields")
+    tmpl = {"object": "C", "fields": {"v": 1}}
+    add([{"object": "A", "friends": [tmpl, tmpl]}, tmpl], "shared-template")
+    args = {"min": 1, "max": 5}
+    add([{"object": "A", "fields": {"a": {"random_number": args}, "b": {"random_number": args}}}], "shared-arguments")
+    # random graphs, acyclic and cyclic, anywhere
+    for _ in range(60 if tier == "quick" else 1500):
+        cyc = rng.random() < 0.35
+        g = _random_graph(rng, rng.choice([3, 5, 8, 12, 18]), cyc)
+        pl = rng.choice(safe + unf)
+        try:
+            add(_place(g, pl), f"random:{'cyclic' if cyc else 'acyclic'}:{pl}", place=pl)
+        except (yaml.YAMLError, RecursionError, ValueError):
+            pass
+    return out
+
+
+def dag_finding_witnesses(tier):
+    """deep sharing where the parser follows the references: it takes as many steps as the TREE has nodes
+    (KNOWN_FINDINGS C20-H2); one witness in quick, more in thorough"""
+    w = [("list", "function_args"), ("dict", "field_value"), ("list", "top_element"), ("list", "var_value")]
+    w = w[:1] if tier == "quick" else w             # [0] is the corpus witness
+    return [{"kind": "dag", "text": _dump_graph(_place(_ladder(40, 3 if k == "dict" else 2, k), pl)),
+             "label": f"dag:ladder-followed-deep:{k}:{pl}", "place": pl, "depth": 40, "width": 2} for k, pl in w]
+
+
+BIG_SHAPES = {
+    # shape -> sizes that must simply work, sizes beyond Python's recursion limit
+    "nest_list_default": ([10, 40, 80], [600, 3000]),
+    "nest_map_field": ([10, 40, 80], [600, 3000]),
+    "nest_objects": ([5, 20, 40], [300, 1500]),
+    "nest_friends": ([5, 20, 40], [300, 1500]),
+    "macro_chain": ([5, 20, 40], [400]),
+    "long_list_default": ([1000, 5000], []),
+    "long_choice": ([1000, 3000], []),
+    "many_statements": ([100, 500], []),
+    "many_fields": ([300, 1000], []),
+    "long_string": ([10000, 200000], []),
+    "long_table_name": ([10000], []),
+    "long_formula": ([50, 150, 400, 3000], []),
+    "big_count_int": ([0, 3, 18, 30, 400, 5000], []),        # count: 10 ** n
+    "big_count_str": ([3, 18, 30, 400], []),                 # count: '1' followed by n zeros
+    "big_count_float": ([3, 18, 30, 308], []),               # count: 1e<n>
+    "big_count_formula": ([3, 18, 30, 400], []),             # count: ${{ 10 ** n }}
+    "negative_count": ([1, 30], []),
+}
+
+
+def big_text(shape, n):
+    if shape == "nest_list_default":
+        return "- option: o\n  default: " + "[" * n + "]" * n + "\n- object: A\n"
+    if shape == "nest_map_field":
+        return "- object: A\n  fields:\n    x: " + "{f: " * n + "1" + "}" * n + "\n"
+    if shape == "nest_objects":
+        return "- object: A\n  fields:\n    x: " + "{object: B, fields: {y: " * n + "1" + "}}" * n + "\n"
+    if shape == "nest_friends":
+        return "- object: A\n  friends: " + "[{object: B, friends: " * n + "[]" + "}]" * n + "\n"
+    if shape == "macro_chain":
+        return "".join(f"- macro: m{i}\n  include: m{i + 1}\n  fields:\n    f{i}: {i}\n" for i in range(n)) + \
+            f"- macro: m{n}\n  fields:\n    last: 1\n- object: A\n  include: m0\n"
+    if shape == "long_list_default":
+        return "- option: o\n  default: [" + ", ".join(str(i) for i in range(n)) + "]\n- object: A\n"
+    if shape == "long_choice":
+        return "- object: A\n  fields:\n    x:\n      random_choice: [" + ", ".join(str(i) for i in range(n)) + "]\n"
+    if shape == "many_statements":
+        return "".join(f"- object: A{i}\n" for i in range(n))
+    if shape == "many_fields":
+        return "- object: A\n  fields:\n" + "".join(f"    f{i}: {i}\n" for i in range(n))
+    if shape == "long_string":
+        return "- object: A\n  fields:\n    x: '" + "x" * n + "'\n"
+    if shape == "long_table_name":
+        return "- object: " + "T" * n + "\n  count: abc\n"
+    if shape == "long_formula":
+        return "- object: A\n  fields:\n    x: ${{ " + " + ".join(["1"] * n) + " }}\n"
+    if shape == "big_count_int":
+        return "- object: A\n  count: 1" + "0" * n + "\n"
+    if shape == "big_count_str":
+        return "- object: A\n  count: '1" + "0" * n + "'\n"
+    if shape == "big_count_float":
+        return f"- object: A\n  count: 1.0e+{n}\n"
+    if shape == "big_count_formula":
+        return "- object: A\n  count: ${{ 10 ** %d }}\n" % n
+    if shape == "negative_count":
+        return "- object: A\n  count: -1" + "0" * n + "\n"
+    raise ValueError(shape)
+
+
+def big_cases(tier):
+    out = []
+    for shape, (ok, deep) in BIG_SHAPES.items():
+        for n in ok + (deep if tier == "thorough" else deep[:1]):
+            out.append({"kind": "big", "shape": shape, "n": n})
+    return out
 
 
 # =============================================================================== generation
@@ -873,6 +1383,24 @@ def generate(rng, tier):
     n_arb = 300 if tier == "quick" else 12000
     for _ in range(n_arb):
         cases.append({"kind": "doc", "tree": arb_tree(rng), "base": None, "label": "arb"})
+    # round 3: hostile text in every name / message position, str.format itself, documents with anchors, big documents
+    # (the witnesses of the open findings are corpus cases: corpus/C20/known_findings.json; more of them in thorough)
+    witnesses = dag_finding_witnesses(tier)[1:]
+    cases[:0] = witnesses[:1]                      # (cases that run into the time limit: start them early)
+    for name, fs in HOSTILE_FILESETS.items():
+        fs = dict(fs)
+        main = fs.pop("_main", "main.yml")
+        cases.append({"kind": "files", "files": fs, "main": main, "label": "files:" + name})
+    cases.extend(hostile_cases(rng, tier))
+    cases.extend(hostile_static_docs(rng, tier))
+    cases.extend(fmt_cases(rng, tier))
+    cases.extend(big_cases(tier))
+    # spread the documents with anchors (and the witnesses that run into the time limit) over the whole list, so
+    # that, should many of them be slow, they are not all handed to the same worker
+    spread = dag_cases(rng, tier) + witnesses[1:]
+    step = max(1, len(cases) // (len(spread) + 1))
+    for i, c in enumerate(spread):
+        cases.insert(min(len(cases), (i + 1) * step + i), c)
     for n in sorted(MINI):
         cases.extend({"kind": "edit", "seed": n, "edit": d} for d in edit_descriptors(sd[n]["tree"]))
     names = sorted((n for n in sd if not n.startswith("m_")), key=lambda n: (not n.startswith("b_"), sd[n]["nodes"], n))
@@ -921,6 +1449,13 @@ def materialise(case):
         return dump(t), s["base"]
     if k == "fault":
         return yaml.safe_dump(_fault_recipe(case["site"], case["depth"], case["exc"]), sort_keys=False), None
+    if k == "hostile":
+        return yaml.safe_dump(_fault_recipe(case["site"], case["depth"], case["exc"], case.get("names"), case.get("msg")),
+                              sort_keys=False, allow_unicode=True, width=1000), None
+    if k == "dag":
+        return case["text"], None
+    if k == "big":
+        return big_text(case["shape"], case["n"]), None
     if k == "files":
         return case["files"][case["main"]], None       # run_impl writes the files and supplies the base
     raise ValueError(k)
@@ -1005,8 +1540,11 @@ def _environment(py, base):
                 # (names of any other shape are rejected before importlib is asked)
                 plugs[p] = _classify_plugin(p, [path.parent / "plugins"]) if p.isascii() else "nonascii"
             v = obj.get("include_file")
-            if isinstance(v, str) and v and not v.startswith("/") and "\x00" not in v:
+            if isinstance(v, str) and v and not v.startswith("/"):
                 if any(f[0] == filekey and f[1] == v for f in files):
+                    continue
+                if "\x00" in v:
+                    files.append([filekey, v, "missing"])       # Path.is_file() answers False for such a name
                     continue
                 target = path.parent / v
                 if not target.exists():
@@ -1037,7 +1575,56 @@ def _environment(py, base):
     return {"files": files, "plugins": plugs}
 
 
+def _run_fmt(case):
+    t, args = case["template"], case["args"]
+    if case["kind"] == "fmt":
+        try:
+            return {"fmt": ["ok", t.format(*args, **case["kw"])]}
+        except Exception as e:
+            return {"fmt": ["err", type(e).__name__]}
+    import inspect
+    import types
+    try:
+        from snowfakery.data_gen_exceptions import fix_exception, DataGenError
+        params = list(inspect.signature(fix_exception).parameters)
+    except Exception:
+        return {"skip": "fix_exception not available"}
+    if params[:4] != ["message", "parentobj", "e", "args"]:
+        return {"skip": "fix_exception has another signature"}
+    parent = types.SimpleNamespace(filename="recipe.yml", line_num=7)
+    e = DataGenError(case["emsg"]) if case["edge"] else Exception(case["emsg"])
+    try:
+        r = fix_exception(t, parent, e, list(args))
+    except Exception as x:
+        return {"fix": type(x).__name__}
+    if not isinstance(r, DataGenError):
+        return {"fix": "returned " + type(r).__name__}
+    return {"fix": "DGE", "has_line": bool(r.line_num), "has_file": bool(r.filename),
+            "msg_ok": isinstance(r.message, str) and bool(str(r).strip())}
+
+
 def run_impl(case):
+    """one document under a limit on its CPU time (signal ITIMER_PROF): reported as a hang like the driver's
+    wall-clock alarm, but a busy machine cannot make a quick document look like one that does not end"""
+    import signal
+
+    def on_cpu(signum, frame):
+        raise C._CaseTimeout()
+    try:
+        old = signal.signal(signal.SIGPROF, on_cpu)
+        signal.setitimer(signal.ITIMER_PROF, CPU_LIMIT)
+    except (ValueError, AttributeError, OSError):
+        return _run_impl(case)                    # (not the main thread / no such timer: the wall-clock alarm remains)
+    try:
+        return _run_impl(case)
+    finally:
+        signal.setitimer(signal.ITIMER_PROF, 0)
+        signal.signal(signal.SIGPROF, old)
+
+
+def _run_impl(case):
+    if case["kind"] in ("fmt", "fix"):
+        return _run_fmt(case)
     text, base = materialise(case)
     if text is None:
         return {"skip": "seed unavailable"}
@@ -1067,7 +1654,8 @@ def _run_text(case, text, base):
     random.seed(0)
     sys.unraisablehook = lambda *a, **k: None       # example plugins' __del__ noise
     state = {"rows": 0, "started": False}
-    fault = case if case["kind"] == "fault" else None
+    fault = case if case["kind"] in ("fault", "hostile") else None
+    ftable = (case.get("names") or {}).get("T", "T") if fault else None
 
     class Capture(OutputStream):
         def __init__(self):
@@ -1075,9 +1663,9 @@ def _run_text(case, text, base):
 
         def write_row(self, tablename, row):
             state["rows"] += 1
-            if fault and fault["site"] == "write_row" and state["rows"] >= fault["nth"] and tablename == "T":
+            if fault and fault["site"] == "write_row" and state["rows"] >= fault["nth"] and tablename == ftable:
                 from harness.c20_plugin import make_exc
-                raise make_exc(fault["exc"])
+                raise make_exc(fault["exc"], fault.get("msg"))
             if state["rows"] > ROW_LIMIT:
                 raise _Enough()
 
@@ -1099,7 +1687,18 @@ def _run_text(case, text, base):
         stream.name = str(REPO / base)            # an absolute base stays as it is
     obs = {}
     import contextlib
+    import time
     sink = io.StringIO()
+    # how often the recursive-alias check is invoked (if the parser still has it under that name)
+    calls = {"n": 0}
+    prm = sys.modules.get("snowfakery.parse_recipe_yaml")
+    alias_fn = getattr(prm, "check_no_recursive_aliases", None) if prm is not None else None
+    if callable(alias_fn):
+        def counting(*a, **k):
+            calls["n"] += 1
+            return alias_fn(*a, **k)
+        prm.check_no_recursive_aliases = counting
+    cpu0 = time.process_time()
     try:
         with contextlib.redirect_stdout(sink), contextlib.redirect_stderr(sink):
             if base:
@@ -1118,8 +1717,10 @@ def _run_text(case, text, base):
             obs["dge"] = type(e).__name__
             try:
                 obs["msg_ok"] = bool(str(e).strip()) and bool(str(e.message).strip())
+                obs["msg_nonempty"] = bool(str(e.message))
             except Exception:
                 obs["msg_ok"] = False
+                obs["msg_nonempty"] = False
             obs["has_line"] = bool(e.line_num)
             obs["has_file"] = bool(e.filename)
         else:
@@ -1127,12 +1728,16 @@ def _run_text(case, text, base):
             obs["where"] = _site(e)
             obs["msg"] = str(e)[:160]
     finally:
+        obs["cpu"] = round(time.process_time() - cpu0, 3)
         if orig is not None:
             interp.execute = orig
+        if callable(alias_fn):
+            prm.check_no_recursive_aliases = alias_fn
+    obs["alias_calls"] = calls["n"]
     obs["rows"] = state["rows"]
     obs["phase"] = None if orig is None else ("run" if state["started"] else "static")
     # what the model needs to know about the world
-    if case["kind"] != "fault":
+    if case["kind"] not in ("fault", "hostile", "big"):
         try:
             py = yaml.safe_load(text)
             obs["env"] = _environment(py, base)
@@ -1293,9 +1898,204 @@ def _cexn(name):
     return "EDGE" if name == "DGE" else f"(EPy {cs(name)})"
 
 
-def coq_case(case, obs):
-    if not isinstance(obs, dict) or obs.get("skip") or "outcome" not in obs:
+# ----------------------------------------------------------------- the document as PyYAML holds it: a graph
+UNFOLD_LIMIT = 3000
+
+
+def graph_of(py):
+    """-> (heap, info).  heap: list of ["leaf", tree] | ["seq", [index]] | ["map", [[key tree, index]]], root at
+    index 0, one node per container OBJECT (shared objects once), one per scalar occurrence.
+    info: shared / cyclic / dicts / nodes / unfolded (size of the tree it stands for, capped) / depth (capped)."""
+    heap, index = [], {}
+    info = {"shared": False, "cyclic": False, "dicts": 0}
+
+    def new_node(o):
+        if isinstance(o, (list, dict)):
+            if id(o) in index:
+                info["shared"] = True
+                return index[id(o)], False
+            index[id(o)] = len(heap)
+            heap.append(None)
+            return index[id(o)], True
+        heap.append(["leaf", from_py(o)])
+        return len(heap) - 1, False
+    root, fresh = new_node(py)
+    stack = [(py, root)] if fresh else []
+    while stack:
+        o, i = stack.pop()
+        if isinstance(o, list):
+            items = []
+            for x in o:
+                j, fr = new_node(x)
+                items.append(j)
+                if fr:
+                    stack.append((x, j))
+            heap[i] = ["seq", items]
+        else:
+            info["dicts"] += 1
+            kv = []
+            for k, v in o.items():
+                if k == "__line__":
+                    continue
+                j, fr = new_node(v)
+                kv.append([from_py(k), j])
+                if fr:
+                    stack.append((v, j))
+            heap[i] = ["map", kv]
+    # cycles, size and depth of the unfolding (iterative, post-order with colours)
+    kids = [([] if n[0] == "leaf" else n[1] if n[0] == "seq" else [c for _, c in n[1]]) for n in heap]
+    colour, size, dep = [0] * len(heap), [1] * len(heap), [1] * len(heap)
+    todo = [(0, 0)]
+    while todo:
+        i, k = todo.pop()
+        if k == 0:
+            if colour[i] == 2:
+                continue
+            colour[i] = 1
+        if k < len(kids[i]):
+            todo.append((i, k + 1))
+            c = kids[i][k]
+            if colour[c] == 1:
+                info["cyclic"] = True
+            elif colour[c] == 0:
+                todo.append((c, 0))
+        else:
+            colour[i] = 2
+            size[i] = min(10 ** 9, 1 + sum(size[c] for c in kids[i]))
+            dep[i] = min(10 ** 6, 1 + max([dep[c] for c in kids[i]] or [0]))
+    info.update(nodes=len(heap), unfolded=None if info["cyclic"] else size[0], depth=None if info["cyclic"] else dep[0])
+    return heap, info
+
+
+def cheap(heap):
+    out = []
+    for n in heap:
+        if n[0] == "leaf":
+            out.append(f"HLeaf {cy(n[1])}")
+        elif n[0] == "seq":
+            out.append("HSeq " + C.clist(f"{j}%nat" for j in n[1]))
+        else:
+            out.append("HMap " + C.clist(C.cpair(cy(k), f"{j}%nat") for k, j in n[1]))
+    return C.clist(out)
+
+
+def _heap_strings(heap):
+    for n in heap:
+        if n[0] == "leaf":
+            yield from _strings(n[1])
+        elif n[0] == "map":
+            for k, _ in n[1]:
+                yield from _strings(k)
+
+
+def _exc_text(exc, msg):
+    """str() of the exception the fault plugin raises (c20_plugin.make_exc), without importing snowfakery"""
+    import builtins
+    text = ("injected " + exc) if msg is None else HOSTILE[msg]
+    if exc == "DGE":
+        return text if text.strip() else "injected recipe error"
+    cls = getattr(builtins, exc)
+    return str(cls(text) if text else cls())
+
+
+def fault_path_v(case):
+    """(isteps, ileaf, exception) of a hostile case as Coq terms: fault_path with all the text"""
+    site, dep, exc = case["site"], case["depth"], case["exc"]
+    nm = dict(DEFAULT_NAMES)
+    nm.update(case.get("names") or {})
+    q = lambda k: cs(nm[k] or "")                                             # noqa: E731
+    tn = lambda k: f"{q(k)} {q(k + 'n')}"                                     # noqa: E731
+    fname = cs("Boom.boom" + nm["fn"])
+    raised = f"(mkX {_cexn(exc)} {cs(_exc_text(exc, case.get('msg')))} false)"
+    attr = '(mkX (EPy "AttributeError") "plugin exposes no attribute" false)'
+    dsteps = {"top": [], "friend": [f"ISTmplFriend {tn('P')}"],
+              "nested": [f"ISTmplField {tn('P')} {q('pfield')}", "ISNested"],
+              "var_template": [f"ISVarExpr {q('vt')}", "ISNested"],
+              "friend_of_friend": [f"ISTmplFriend {tn('P')}", f"ISTmplFriend {tn('Q')}"]}
+    fld = f"ISTmplField {tn('T')} {q('field')}"
+    cnt = lambda d: f"ISTmplCount {tn('T')} {cs(d)}"                           # noqa: E731
+    fe = f"ISTmplForEach {tn('T')}"
+    var = f"ISVarExpr {q('var')}"
+    defn = cs(nm["defn"] + "${{ 1 + }}")
+    syntax = '(mkX EDGE "unexpected end of template" false)'
+    table = {
+        "field_call": ([fld], f"ILFunc {fname}", raised),
+        "field_attr": ([fld], "ILLookup", attr),
+        "field_arg": ([fld, 'ISCallArg "random_number"'], f"ILFunc {fname}", raised),
+        "field_simple": ([fld], "ILEval", raised),
+        "field_compile": ([fld], f"ILCompile {defn}", syntax),
+        "count_call": ([cnt("call")], f"ILFunc {fname}", raised),
+        "count_attr": ([cnt("call")], "ILLookup", attr),
+        "count_simple": ([cnt("formula")], "ILEval", raised),
+        "count_compile": ([cnt("formula")], f"ILCompile {defn}", syntax),
+        "count_conv_simple": ([cnt("abc" + nm["cdef"])], "ILCountConv", '(mkX (EPy "ValueError") "could not convert string to float" false)'),
+        "count_conv_struct": ([cnt("call")], "ILCountConv", '(mkX (EPy "ValueError") "could not convert string to float" false)'),
+        "count_conv_inf": ([cnt("inf")], "ILCountConv", '(mkX (EPy "OverflowError") "cannot convert float infinity to integer" false)'),
+        "foreach_call": ([fe], f"ILFunc {fname}", raised),
+        "foreach_attr": ([fe], "ILLookup", attr),
+        "foreach_noniter": ([fe], f"ILForEachType {tn('T')}", '(mkX EDGE "for_each value must be a DatasetIterator" true)'),
+        "write_row": ([], f"ILWrite {tn('T')}", raised),
+        "ctx_locale": ([], f"ILCtxTmpl {tn('T')}", '(mkX (EPy "AttributeError") "Invalid configuration for faker locale" false)'),
+        "ctx_locale_var": ([], f"ILCtxVar {q('var')}", '(mkX (EPy "AttributeError") "Invalid configuration for faker locale" false)'),
+        "var_call": ([var], f"ILFunc {fname}", raised),
+        "var_attr": ([var], "ILLookup", attr),
+        "var_simple": ([var], "ILEval", raised),
+        "var_compile": ([var], f"ILCompile {defn}", syntax),
+    }
+    steps, leaf, e = table[site]
+    pre = {"top": [], "friend": dsteps["friend"], "friend_of_friend": dsteps["friend_of_friend"]}[dep] \
+        if site.startswith("var_") else dsteps[dep]
+    return pre + steps, leaf, e
+
+
+def _graph_case(case, obs, py, exp):
+    heap, info = graph_of(py)
+    if any(_UWS.search(t) for t in _heap_strings(heap)):
         return None
+    env = obs.get("env")
+    files = (env or {}).get("files") or []
+    # the invocations of the alias check are those of the main file only when nothing is included
+    calls = obs.get("alias_calls", 0) if not files else 0
+    slack = info["dicts"] + 1
+    if not info["cyclic"] and info["unfolded"] is not None and info["unfolded"] <= UNFOLD_LIMIT and env is not None:
+        cenv = _cenv(env)
+        if cenv is not None:
+            return f"CGraph {cenv} {cheap(heap)} 0%nat {exp} {C.cz(calls)} {C.cz(slack)}"
+    if info["cyclic"]:
+        return f"CAlias {cheap(heap)} 0%nat true 0 0" if exp == "OReject" else f"CAlias {cheap(heap)} 0%nat false 0 0"
+    if obs.get("hang") or obs.get("outcome") is None:
+        return None
+    return f"CAlias {cheap(heap)} 0%nat false {C.cz(calls)} {C.cz(slack)}"
+
+
+def coq_case(case, obs):
+    if not isinstance(obs, dict) or obs.get("skip"):
+        return None
+    if case["kind"] == "fmt":
+        r = obs.get("fmt")
+        if r is None:
+            return None
+        exp = f"(FROk {cs(r[1])})" if r[0] == "ok" else f"(FRErr {cs(r[1])})"
+        kw = C.clist(C.cpair(cs(k), cs(v)) for k, v in case["kw"].items())
+        return f"CFmt {cs(case['template'])} {C.clist(cs(a) for a in case['args'])} {kw} {exp}"
+    if case["kind"] == "fix":
+        r = obs.get("fix")
+        if r is None:
+            return None
+        cls = "EDGE" if case["edge"] else '(EPy "Exception")'
+        e = f"(mkX {cls} {cs(case['emsg'])} false)"
+        return f"CFix {cs(case['template'])} {C.clist(cs(a) for a in case['args'])} {e} {_cexn(r)}"
+    if "outcome" not in obs:
+        return None
+    if case["kind"] == "big":
+        return None                       # the recursion limit / the size of numbers is not what the model is about
+    if case["kind"] == "hostile":
+        steps, leaf, e = fault_path_v(case)
+        got = "DGE" if obs["outcome"] == "DGE" else obs["outcome"]
+        if got == "accept":
+            got = "NoException"
+        return (f"CFaultV {C.clist(steps)} ({leaf}) {e} {_cexn(got)} "
+                f"{C.cbool(bool(obs.get('msg_nonempty', obs.get('msg_ok'))))} {C.cbool(bool(obs.get('has_line')))}")
     if case["kind"] == "fault":
         steps, leaf, e = fault_path(case)
         got = "DGE" if obs["outcome"] == "DGE" else obs["outcome"]
@@ -1315,9 +2115,16 @@ def coq_case(case, obs):
     except Exception as e:
         return f"CText {_cloaderr(_load_err(e))} {exp}"
     try:
+        heap, info = graph_of(py)
+    except RecursionError:
+        return None
+    if info["shared"] or info["cyclic"] or case["kind"] == "dag":
+        # anchors and aliases: the model gets the graph (alias check, then the tree it stands for)
+        return _graph_case(case, obs, py, exp)
+    try:
         tree = from_py(py)
     except (Cyclic, RecursionError):
-        return None                      # an alias cycle is not a tree: outside the model's datatype
+        return None
     if any(_UWS.search(s) for s in _strings(tree)):
         return None                      # str.strip() on non-ASCII whitespace is not modelled
     env = obs.get("env")
@@ -1330,13 +2137,48 @@ def coq_case(case, obs):
 
 
 # =============================================================================== property oracle
+def cpu_budget(case, text_len):
+    """CPU seconds a document of that size may take before execution has produced ROW_LIMIT rows (the unchanged
+    code needs milliseconds; the limit scales with the size of the text, not with the number of ways through it)"""
+    return 3.0 + 1e-5 * text_len
+
+
+def _nondge_at_leaf(case):
+    """is what the fault raises something else than a DataGenError?"""
+    site = case["site"]
+    if site in ("foreach_noniter",) or site.endswith("_compile"):
+        return False
+    if site.endswith("_attr") or site.startswith("count_conv") or site.startswith("ctx_"):
+        return True
+    return case["exc"] != "DGE"
+
+
 def oracle(case, obs):
     if obs.get("skip"):
         return None
+    if case["kind"] == "fmt":
+        return None                        # Python's own str.format: only compared with the model
+    if case["kind"] == "fix":
+        r = obs.get("fix")
+        if case["template"] in REAL_TEMPLATES and r is not None:
+            # the templates of the code, any text as argument and as the wrapped exception's message
+            if r != "DGE":
+                return f"crash {r}@data_gen_exceptions.py:fix_exception: template {case['template']!r} with args {case['args']!r}"
+            if not obs.get("msg_ok"):
+                return "message: fix_exception returned a DataGenError without a message"
+            if not obs.get("has_line") or not obs.get("has_file"):
+                return "location: fix_exception returned a DataGenError without the file / line of its parent object"
+        return None
     out = obs["outcome"]
-    if case["kind"] == "fault":
+    if case["kind"] in ("fault", "hostile"):
         if out not in ("accept", "DGE"):
-            return f"crash {out}@{obs.get('where')}: injected {case['exc']} at {case['site']}/{case['depth']} left generate as {out}"
+            return (f"crash {out}@{obs.get('where')}: injected {case['exc']} at {case['site']}/{case['depth']} "
+                    f"(names {case.get('names')}, text #{case.get('msg')}) left generate as {out}: {obs.get('msg')}")
+        if out == "DGE" and not obs.get("msg_ok"):
+            return "message: rejected with a DataGenError that carries no message"
+        if out == "DGE" and _nondge_at_leaf(case) and not obs.get("has_line"):
+            return (f"location: {case['exc']} injected at {case['site']}/{case['depth']} is reported without the line "
+                    f"of the template / field it happened in")
         return None
     if out not in ("accept", "DGE"):
         return (f"crash {out}@{obs.get('where')}: the document is answered with {out} ({obs.get('msg')}) "
@@ -1345,6 +2187,11 @@ def oracle(case, obs):
         return "message: rejected with a DataGenError that carries no message"
     if obs.get("phase") == "static" and obs.get("rows", 0) > 0:
         return f"rows: {obs['rows']} rows were written although the error was raised before execution started"
+    if case["kind"] in ("dag", "big") and "cpu" in obs:
+        text, _ = materialise(case)
+        if obs["cpu"] > cpu_budget(case, len(text)):
+            return (f"slow: {obs['cpu']} s of CPU for a document of {len(text)} characters "
+                    f"(limit {cpu_budget(case, len(text)):.1f} s)")
     return None
 
 
@@ -1353,9 +2200,11 @@ def violation_class(case, obs, msg):
 
 
 def nontrivial(case, obs):
+    if case["kind"] in ("fmt", "fix"):
+        return isinstance(obs, dict) and not obs.get("skip") and ("{" in case["template"] or "}" in case["template"])
     if not isinstance(obs, dict) or "outcome" not in obs:
         return False
-    return case["kind"] == "fault" or obs["outcome"] != "accept"
+    return case["kind"] in ("fault", "hostile", "dag", "big") or obs["outcome"] != "accept"
 
 
 def stats(cases, obss):
@@ -1366,9 +2215,47 @@ def stats(cases, obss):
     ops = Counter()
     lines = Counter()
     rows_before_dge = Counter()
+    r3 = {"hostile_sites": Counter(), "hostile_slots": Counter(), "hostile_outcomes": Counter(),
+          "hostile_exception_text": Counter(), "hostile_static_patterns": Counter(), "format": Counter(),
+          "fix_exception": Counter(), "dag_places": Counter(), "dag_shapes": Counter(), "dag_depths": Counter(),
+          "dag_outcomes": Counter(), "big_shapes": Counter(), "big_outcomes": Counter()}
+    max_calls, max_cpu = 0, 0.0
     for c, o in zip(cases, obss):
-        if not isinstance(o, dict) or "outcome" not in o:
-            outc["hang" if isinstance(o, dict) and o.get("hang") else "n/a"] += 1
+        k = c["kind"]
+        if not isinstance(o, dict):
+            outc["n/a"] += 1
+            continue
+        if k == "fmt":
+            r = o.get("fmt") or ["skip"]
+            r3["format"][r[0] if r[0] != "err" else r[1]] += 1
+            continue
+        if k == "fix":
+            r3["fix_exception"][("code's template: " if c["template"] in REAL_TEMPLATES else "any template: ") + str(o.get("fix", "skip"))] += 1
+            continue
+        verdict = "hang" if o.get("hang") else ("accept" if o.get("outcome") == "accept" else "reject" if o.get("outcome") == "DGE" else str(o.get("outcome")))
+        if k == "hostile":
+            r3["hostile_sites"][c["site"] + "/" + c["depth"]] += 1
+            for sl in (c.get("names") or {}):
+                r3["hostile_slots"][sl] += 1
+            r3["hostile_exception_text"]["default" if c.get("msg") is None else "empty" if HOSTILE[c["msg"]] == "" else "hostile"] += 1
+            r3["hostile_outcomes"][verdict] += 1
+        elif k == "dag":
+            lab = c.get("label", "dag:?").split(":")
+            r3["dag_shapes"][":".join(lab[1:3])] += 1
+            r3["dag_places"][c.get("place", "-")] += 1
+            if "depth" in c:
+                r3["dag_depths"][c["depth"]] += 1
+            r3["dag_outcomes"][verdict] += 1
+            max_calls = max(max_calls, o.get("alias_calls", 0))
+        elif k == "big":
+            r3["big_shapes"][c["shape"]] += 1
+            r3["big_outcomes"][c["shape"] + ":" + str(c["n"]) + " " + verdict] += 1
+        elif k == "doc" and str(c.get("label", "")).startswith("hostile-static:"):
+            r3["hostile_static_patterns"][c["label"].split(":", 1)[1] + " " + verdict] += 1
+        if k in ("dag", "big"):
+            max_cpu = max(max_cpu, o.get("cpu", 0.0))
+        if "outcome" not in o:
+            outc["hang" if o.get("hang") else "n/a"] += 1
             continue
         out = o["outcome"]
         outc[("accept" if out == "accept" else "reject" if out == "DGE" else "crash") + "/" + str(o.get("phase"))] += 1
@@ -1384,7 +2271,10 @@ def stats(cases, obss):
     sd = seeds()
     per_seed = Counter(c["seed"] for c in cases if c["kind"] == "edit" and c.get("edit"))
     exhaustive = sorted(n for n, k in per_seed.items() if n in sd and k >= len(edit_descriptors(sd[n]["tree"])))
-    return {"seeds_enumerated_exhaustively": len(exhaustive), "kinds": dict(kinds), "outcome/phase": dict(outc), "crash_sites": dict(crash), "reject_classes": dict(dge),
+    round3 = {k: dict(v) for k, v in r3.items()}
+    round3["dag_depths"] = {str(k): v for k, v in sorted(r3["dag_depths"].items())}
+    round3.update(max_alias_check_invocations=max_calls, max_cpu_seconds_dag_big=max_cpu, hostile_alphabet=len(HOSTILE))
+    return {"round3": round3, "seeds_enumerated_exhaustively": len(exhaustive), "kinds": dict(kinds), "outcome/phase": dict(outc), "crash_sites": dict(crash), "reject_classes": dict(dge),
             "reject_location": dict(lines), "runtime_reject_rows_before": dict(rows_before_dge),
             "edit_ops": dict(ops), "seeds": len(sd), "seed_nodes": sum(s["nodes"] for s in sd.values())}
 
@@ -1417,12 +2307,217 @@ def directed_search(rng, disagreeing):
             for exc in FAULT_EXCS:
                 if _fault_recipe(site, dep, exc) is not None and not (exc == "StopIteration" and site.endswith("_simple")):
                     out.append({"kind": "fault", "site": site, "depth": dep, "exc": exc, "nth": 1})
+    out.extend(rng.sample(hostile_cases(rng, "thorough"), 1500))
+    out.extend(c for c in dag_cases(rng, "quick") if c.get("depth", 0) <= 24)
     return out
 
 
 # =============================================================================== known findings
 # id -> (exception signatures (type, file:function) | special, what, witness case)
-FINDINGS = {}        # every defect found while this check was built is repaired (KNOWN_FINDINGS.json: fixed)
+# the defects found while the check was built are repaired (KNOWN_FINDINGS.json: fixed); open ones (round 3):
+FINDINGS = {
+ "C20-H2-alias-expansion": {
+  "sigs": [("HANG", "alias-expansion"), ("SLOW", "alias-expansion")],
+  "what": "a document whose anchors are referred to several times, level upon level (l1: &l1 [*l0, *l0] ... 40 levels: "
+          "42 lines of YAML), placed where the parser follows the references (a field value, function arguments, a var "
+          "value, friends, a count / for_each definition, the body of an included macro) or where an error message "
+          "prints the structure (top-level element that is no dictionary / of unknown type, statement that is no "
+          "dictionary, field value of unknown shape): parse_field_value / parse_structured_value_args / the f-strings "
+          "`{obj}`, `{field}` visit every PATH of the graph, 2**40 steps - the call never returns (no rows, no error). "
+          "PyYAML loads the text in linear time, check_no_recursive_aliases (memoised) accepts it as acyclic",
+  "case": {"kind": "dag", "label": "dag:ladder-followed-deep:list:function_args", "place": "function_args", "depth": 40,
+           "text": None}},
+ "C20-D1-deep-nesting": {
+  "sigs": [("RecursionError", "deep-nesting")],
+  "what": "a document nested more deeply than Python's recursion limit allows (a flow sequence 400 deep in an option "
+          "default, a function call 400 deep, 200 nested object templates / friends, a chain of 400 macros including "
+          "one another) is answered with RecursionError (from PyYAML's composer, check_no_recursive_aliases, "
+          "parse_field_value / include_macro, or at run time ObjectTemplate.generate_rows) instead of a recipe error",
+  "case": {"kind": "big", "shape": "nest_list_default", "n": 600}},
+ "C20-S1-history-table-name": {
+  "sigs": [("OperationalError", "history-table-name"), ("ProgrammingError", "history-table-name")],
+  "what": "the target of a random_reference becomes, verbatim, the name of a table of the row-history store "
+          "(row_history.py: f'CREATE TABLE \"{tablename}\" ...', INSERT, SELECT): a name with a double quote "
+          "(random_reference: 'a\"b' -> sqlite3.OperationalError: near \"b\": syntax error - text of the recipe is executed "
+          "as SQL), with a NUL character (ProgrammingError: the query contains a null character) or starting with "
+          "`sqlite_` in any case (a table called sqlite_stats: OperationalError: object name reserved for internal use) "
+          "makes generate raise the sqlite3 exception before the first row, whether or not such a table exists",
+  "case": {"kind": "doc", "tree": ["l", [["m", [[["s", "object"], ["s", "sqlite_stats"]], [["s", "count"], ["i", 2]]]],
+                                         ["m", [[["s", "object"], ["s", "B"]],
+                                                [["s", "fields"], ["m", [[["s", "x"], ["m", [[["s", "random_reference"],
+                                                                                             ["s", "sqlite_stats"]]]]]]]]]]]],
+           "base": None}},
+ "C20-F1-include-file-name-too-long": {
+  "sigs": [("OSError", "include-file-name-too-long")],
+  "what": "include_file with a name the operating system refuses (a path component longer than 255 bytes, e.g. 300 "
+          "characters): parse_included_file's inclusion_path.is_file() raises OSError [Errno 36] File name too long "
+          "(pathlib ignores only ENOENT / ENOTDIR / EBADF / ELOOP), which leaves generate as OSError instead of "
+          "`Cannot load include file ...`",
+  "case": {"kind": "doc", "tree": ["l", [["m", [[["s", "include_file"], ["s", "x" * 300]]]], ["m", [[["s", "object"], ["s", "A"]]]]]],
+           "base": None}},
+ "C20-M1-empty-message": {
+  "sigs": [("MESSAGE", "formula-exception-without-text")],
+  "what": "a formula in a `var` or a `count` (no field around it) that raises an exception whose str() is empty - a bare "
+          "`assert` or `raise KeyError()` inside a plugin function called from ${{ }} - is reported as a DataGenValueError "
+          "whose message is the empty string (SimpleValue.render: DataGenValueError(str(e), ...)); only the location is "
+          "printed.  Theorem C20_refuted_message_always",
+  "case": {"kind": "hostile", "site": "var_simple", "depth": "top", "exc": "AssertionError", "names": {},
+           "msg": len(HOSTILE) - 1, "nth": 0}},
+}
+FINDINGS["C20-H2-alias-expansion"]["case"]["text"] = dag_finding_witnesses("quick")[0]["text"]
+FOLLOWED_LIMIT = 200000
+
+
+_OBJECT_KEYS = {"object": str, "fields": dict, "friends": list, "include": str, "nickname": str, "just_once": bool,
+                "for_each": dict, "count": (str, int, dict), "update_key": str}
+_VAR_KEYS = {"var": str, "value": (str, int, dict, list)}
+
+
+def _followed_size(py):
+    """size of the tree the unchanged parser walks (or prints) when it follows the references of this document:
+    statements that pass parse_element, macros that are included, top-level elements an error message prints"""
+    try:
+        heap, info = graph_of(py)
+    except RecursionError:
+        return 0
+    if info["cyclic"] or not isinstance(py, list):
+        return 0
+    # sizes per container object
+    kids = [([] if n[0] == "leaf" else n[1] if n[0] == "seq" else [c for _, c in n[1]]) for n in heap]
+    size = [None] * len(heap)
+    order = [(0, 0)]
+    while order:
+        i, k = order.pop()
+        if size[i] is not None:
+            continue
+        if k < len(kids[i]):
+            order.append((i, k + 1))
+            if size[kids[i][k]] is None:
+                order.append((kids[i][k], 0))
+        else:
+            size[i] = min(10 ** 12, 1 + sum(size[c] or 1 for c in kids[i]))
+    top = heap[0][1]
+    includes = set()
+    seen = set()
+    todo = [py]
+    while todo:
+        o = todo.pop()
+        if id(o) in seen or not isinstance(o, (list, dict)):
+            continue
+        seen.add(id(o))
+        if isinstance(o, dict):
+            inc = o.get("include")
+            if isinstance(inc, str):
+                includes.update(x.strip() for x in inc.split(","))
+            todo.extend(o.values())
+        else:
+            todo.extend(o)
+    total = 0
+    for obj, idx in zip(py, top):
+        if not isinstance(obj, dict):
+            total += size[idx]                 # "... should all be dictionaries, not {obj}"
+            continue
+        if obj.get("option") == "snowfakery.standard_plugins.SnowfakeryVersion.snowfakery_version":
+            total += size[idx]                 # "snowfakery_version should be 2 or 3, not `{snowfakery_version}`"
+            continue
+        if obj.get("option") or obj.get("include_file") or obj.get("plugin") or obj.get("snowfakery_version"):
+            continue
+        if obj.get("macro"):
+            if obj.get("macro") in includes and all(k in ("macro", "fields", "friends", "include") for k in obj):
+                total += size[idx]
+            continue
+        spec = _OBJECT_KEYS if obj.get("object") else _VAR_KEYS if obj.get("var") else None
+        if spec is None:
+            total += size[idx]                 # "Unknown object type {obj}"
+            continue
+        if all(k in spec and isinstance(v, spec[k]) for k, v in obj.items()):
+            total += size[idx]
+    return total
+
+
+def _history_name_class(case):
+    """'history-table-name' when some random_reference of the document names a target that is not a plain SQL
+    identifier body: contains a double quote or NUL, or starts with sqlite_"""
+    if case["kind"] in ("fmt", "fix"):
+        return None
+    text, _ = materialise(case)
+    try:
+        py = yaml.safe_load(text)
+    except Exception:
+        return None
+
+    def bad(name):
+        return isinstance(name, str) and ('"' in name or "\x00" in name or name.lower().startswith("sqlite_"))
+    seen, todo = set(), [py]
+    while todo:
+        o = todo.pop()
+        if not isinstance(o, (list, dict)) or id(o) in seen:
+            continue
+        seen.add(id(o))
+        if isinstance(o, dict):
+            if "random_reference" in o:
+                tgt = o["random_reference"]
+                if isinstance(tgt, dict):
+                    tgt = tgt.get("to")
+                elif isinstance(tgt, list) and tgt:
+                    tgt = tgt[0]
+                if bad(tgt):
+                    return "history-table-name"
+            todo.extend(o.values())
+        else:
+            todo.extend(o)
+    return None
+
+
+def _long_include_class(case):
+    if case["kind"] in ("fmt", "fix"):
+        return None
+    text, _ = materialise(case)
+    try:
+        py = yaml.safe_load(text)
+    except Exception:
+        return None
+    for o in py if isinstance(py, list) else []:
+        v = o.get("include_file") if isinstance(o, dict) else None
+        if isinstance(v, str) and (any(len(part.encode("utf-8")) > 255 for part in v.split("/")) or len(v.encode("utf-8")) > 4000):
+            return "include-file-name-too-long"
+    return None
+
+
+def _longest_include_chain(py):
+    if not isinstance(py, list):
+        return 0
+    inc = {}
+    for o in py:
+        if isinstance(o, dict) and isinstance(o.get("macro"), str) and isinstance(o.get("include"), str):
+            inc[o["macro"]] = [x.strip() for x in o["include"].split(",")]
+    depth = {}
+    for start in inc:
+        # chains only (each macro of the generated documents includes one other): follow until it ends or repeats
+        n, cur, seen = 0, start, set()
+        while cur in inc and cur not in seen and n < 10000:
+            seen.add(cur)
+            cur = inc[cur][0]
+            n += 1
+        depth[start] = n
+    return max(depth.values() or [0])
+
+
+def _deep_class(case):
+    """'deep-nesting' when the document is nested (or chains macros) beyond any reasonable recursion limit"""
+    text, _ = materialise(case)
+    try:
+        py = yaml.safe_load(text)
+        _, info = graph_of(py)
+    except RecursionError:
+        return "deep-nesting"
+    except Exception:
+        return None
+    if info["depth"] is not None and info["depth"] >= 100:
+        return "deep-nesting"
+    if _longest_include_chain(py) >= 100:
+        return "deep-nesting"
+    return None
 
 
 def _walk_py(o):
@@ -1436,6 +2531,8 @@ def _walk_py(o):
 
 
 def _recursion_class(case, obs):
+    if _deep_class(case):
+        return "deep-nesting"
     text, _ = materialise(case)
     try:
         py = yaml.safe_load(text)
@@ -1475,10 +2572,20 @@ def _recursion_class(case, obs):
 
 
 def _hang_class(case):
+    if case["kind"] in ("fmt", "fix"):
+        return None
     text, _ = materialise(case)
     try:
         py = yaml.safe_load(text)
     except Exception:
+        return None
+    try:
+        if _followed_size(py) >= FOLLOWED_LIMIT:
+            return "alias-expansion"
+        _, info = graph_of(py)
+        if info["shared"] or info["cyclic"] or (info["depth"] or 0) > 200:
+            return None                  # (the walk below is over the tree)
+    except RecursionError:
         return None
     for o in _walk_py(py):
         if isinstance(o, dict) and "Schedule.Event" in o:
@@ -1543,11 +2650,29 @@ def _runtime_class_ok(fid, case):
 
 def match_finding(case, obs, msg, findings):
     """the id of the open finding this failure belongs to, or None (a model disagreement never matches)"""
-    if msg == "model-disagreement" or not isinstance(obs, dict):
+    if not isinstance(obs, dict):
         return None
     open_ids = {f["id"] for f in findings}
-    if obs.get("hang"):
+    sqlite_crash = obs.get("outcome") in ("OperationalError", "ProgrammingError") and \
+        str(obs.get("where", "")).startswith("row_history.py:")
+    if msg == "model-disagreement":
+        # (the model has no row-history store: where the implementation fails in it, the static verdicts differ)
+        if sqlite_crash and "C20-S1-history-table-name" in open_ids and _history_name_class(case):
+            return "C20-S1-history-table-name"
+        return None
+    if sqlite_crash and msg.startswith("crash "):
+        sig = (obs["outcome"], _history_name_class(case))
+    elif obs.get("outcome") == "OSError" and obs.get("where") == "parse_recipe_yaml.py:parse_included_file" \
+            and msg.startswith("crash "):
+        sig = ("OSError", _long_include_class(case))
+    elif obs.get("hang"):
         sig = ("HANG", _hang_class(case))
+    elif msg.startswith("slow"):
+        sig = ("SLOW", _hang_class(case))
+    elif msg.startswith("message:"):
+        empty = case["kind"] in ("fault", "hostile") and case["site"] in ("var_simple", "count_simple") and \
+            case["exc"] != "DGE" and _exc_text(case["exc"], case.get("msg")).strip() == ""
+        sig = ("MESSAGE", "formula-exception-without-text" if empty else None)
     else:
         out = obs.get("outcome")
         if out in (None, "accept", "DGE") or not msg.startswith("crash "):
@@ -1556,6 +2681,8 @@ def match_finding(case, obs, msg, findings):
         if out == "RecursionError":
             where = _recursion_class(case, obs)
         sig = (out, where)
+    if sig[1] is None:
+        return None
     for fid, f in FINDINGS.items():
         if fid not in open_ids:
             continue
@@ -1567,7 +2694,26 @@ def match_finding(case, obs, msg, findings):
     return None
 
 
-def write_findings_corpus():   # (maintenance; FINDINGS is empty at present)
+FINDING_SIGNATURES = {
+ "C20-F1-include-file-name-too-long": "OSError whose innermost snowfakery frame is parse_recipe_yaml.py:parse_included_file AND an "
+                                      "include_file of the document has a path component longer than 255 bytes (or is longer "
+                                      "than 4000 bytes)",
+ "C20-S1-history-table-name": "sqlite3 OperationalError / ProgrammingError whose innermost snowfakery frame is in row_history.py AND "
+                              "the document has a random_reference whose target contains a double quote or NUL or starts "
+                              "with sqlite_ (any case)",
+ "C20-H2-alias-expansion": "the run does not end within the time limit (or exceeds the CPU limit) AND the tree the parser "
+                           "walks or prints when it follows the references of the document (statements that pass "
+                           "parse_element, included macros, top-level elements quoted by an error message, the default of "
+                           "the version option) has at least 200000 nodes; a document whose sharing sits where the parser "
+                           "does not look (option default, unused macro, rejected key) must still answer at once",
+ "C20-D1-deep-nesting": "RecursionError AND the document is nested at least 100 containers deep or chains at least 100 "
+                        "macro includes; a RecursionError on a shallower document is still a failure",
+ "C20-M1-empty-message": "oracle message `message:` AND the case injects, through a formula (${{ }}) in a `var` or a "
+                         "`count`, an exception other than DataGenError whose text is empty or blank",
+}
+
+
+def write_findings_corpus():
     """(maintenance) corpus/C20/known_findings.json and the KNOWN_FINDINGS.json entries as text"""
     cases = []
     entries = []
@@ -1576,11 +2722,9 @@ def write_findings_corpus():   # (maintenance; FINDINGS is empty at present)
         c["label"] = "finding:" + fid
         cases.append(c)
         entries.append({"id": fid, "property": "C20", "what": f["what"],
-                        "signature": "exception (type @ innermost snowfakery frame) in " +
-                                     ", ".join(f"{t}@{w}" for t, w in f["sigs"]) +
-                                     "; static sites only when the Coq model predicts the same crash for the document",
+                        "signature": FINDING_SIGNATURES[fid],
                         "witness": "corpus/C20/known_findings.json (label finding:%s): %s" % (
-                            fid, json.dumps(f["case"].get("text", f["case"].get("files")))[:160])})
+                            fid, json.dumps(materialise(f["case"])[0])[:200])})
     (C.CORPUS / "C20").mkdir(parents=True, exist_ok=True)
     (C.CORPUS / "C20" / "known_findings.json").write_text(json.dumps({"cases": cases}, indent=1))
     return entries
